@@ -579,10 +579,10 @@ func decodeCase(buf []byte, dotu bool, measure bool) {
 	var u string
 	var fc *go9p.Fcall
 	var alloc uint64
-	if measure {
-		alloc = allocOf(func() { u, fc = unpackStr(buf, dotu) })
-	} else {
-		u, fc = unpackStr(buf, dotu)
+	_ = measure
+	alloc = allocOf(func() { u, fc = unpackStr(buf, dotu) })
+	if alloc > 64*uint64(len(buf))+(1<<22) {
+		decodeRunaway++ // the oracle reports it; stop before the machine runs out of memory
 	}
 	// prefix-only: same result on exactly the declared size, and with junk appended
 	u2, u3 := "-", "-"
@@ -665,6 +665,8 @@ func fcallToGmsg(fc *go9p.Fcall) *gmsg {
 	return m
 }
 
+var decodeRunaway int
+
 func put32(b []byte, v uint32) {
 	b[0], b[1], b[2], b[3] = byte(v), byte(v>>8), byte(v>>16), byte(v>>24)
 }
@@ -678,6 +680,9 @@ func modeDecode(tier string, args []string) {
 	}
 	cnt := 0
 	mk := func(buf []byte, dotu bool) {
+		if decodeRunaway >= 5 {
+			return
+		}
 		cnt++
 		decodeCase(buf, dotu, cnt%5 == 0)
 	}
